@@ -17,12 +17,11 @@ SHORTEN = {"bytes::bytes_mut::BytesMut::split_to", "bytes::bytes_mut::BytesMut::
            "bytes::bytes_mut::BytesMut::split", "bytes::buf::buf_impl::Buf::copy_to_bytes"}
 
 
-def streaming_rule(rep, prog, cfg):
-    rule = "C02.streaming"
+def streaming_rule(rep, prog, cfg, rule="C02.streaming", root_names=(COMPONENT_PARSE, "mpd_protocol::parser::greeting"), floor=4):
     cg = callgraph(prog)
-    roots = body_by_name(prog, COMPONENT_PARSE) + body_by_name(prog, "mpd_protocol::parser::greeting")
-    if len(roots) != 2:
-        rep.fail(rule + ".anchor", cfg, "parser.rs", "ParsedComponent::parse / greeting not found")
+    roots = [b for n in root_names for b in body_by_name(prog, n)]
+    if len(roots) != len(root_names):
+        rep.fail(rule + ".anchor", cfg, "parser.rs", "%s not found" % " / ".join(root_names))
         return
     R = cg.reachable([r.id for r in roots])
     streaming = set()
@@ -42,7 +41,7 @@ def streaming_rule(rep, prog, cfg):
                  "into a hard error or a short match, so the result depends on where the stream was split" % n)
     rep.check(not complete, rule, cfg + "/no complete-input combinators", "parser.rs", "see above",
               detail={"streaming_combinators": sorted(streaming), "bodies": len(R)})
-    rep.floor(rule + ".control", cfg + "/streaming combinators seen", len(streaming), 4)
+    rep.floor(rule + ".control", cfg + "/streaming combinators seen", len(streaming), floor)
 
 
 def consume_rule(rep, prog, cfg):
@@ -565,6 +564,30 @@ def valid_prefix_rule(rep, prog, cfg, rule="C02.valid-prefix", which=("blocking/
         if not pcalls:
             rep.fail(rule + ".anchor", "%s/%s" % (cfg, name), b.loc(b.span), "no parser call found in %s" % name)
             continue
+        # the helper's side of (a): a slice-reading helper that hands a slice back cuts it at the running count it was given by `&mut`
+        # (`&buf[..*total]`), not at the size of the last read (`&buf[..read]` drops everything received by earlier reads)
+        for n in sorted({n for _, t in b.calls() for n in callee_names(t) if n in helpers}):
+            for hb in body_by_name(prog, n):
+                if "[u8]" not in hb.raw.get("sig", "").split("->")[-1]:
+                    continue
+                if not any(x in SLICE_READS for _, t2 in hb.calls() for x in callee_names(t2)):
+                    continue
+                idx = [(bb2, t2) for bb2, t2 in hb.calls() if any(x.endswith("ops::index::Index::index") for x in callee_names(t2)) and len(t2["args"]) == 2]
+                inst = "%s/%s: %s returns the received bytes" % (cfg, name, n.rsplit("::", 1)[-1])
+                if not idx:
+                    rep.fail(rule, inst, hb.loc(hb.span), "read helper %s returns a slice but no `buf[..count]` is found in it (idiom unknown: failing closed)" % n)
+                    continue
+                for bb2, t2 in idx:
+                    rng = terms.simplify(terms.term_of_local(hb, op_local(t2["args"][1]), depth=10)) if op_local(t2["args"][1]) is not None else None
+                    ok = False
+                    if isinstance(rng, tuple) and rng and rng[0] == "agg" and rng[1].startswith("core::ops::range::Range") and rng[3]:
+                        end = rng[3][-1]
+                        from0 = rng[1].endswith("::RangeTo") or (rng[1].endswith("::Range") and rng[3][0] == ("const", 0))
+                        is_count = isinstance(end, tuple) and end[0] == "free" and "&" in hb.local_ty(end[1]) and "mut usize" in hb.local_ty(end[1])
+                        ok = from0 and is_count
+                    rep.check(ok, rule, inst, hb.loc(hb.blocks[bb2]["ts"]),
+                              "%s hands back `buf[%s]`: not the prefix up to the running count it maintains through its `&mut usize` parameter — the caller's parser "
+                              "would miss bytes received by earlier reads (or see padding)" % (n.rsplit("::", 1)[-1], terms.show(terms.canon(rng)) if rng else "?"))
         if not padded:
             rep.ok(rule, "%s/%s append-based read: buffer length is the valid length" % (cfg, name), b.loc(b.span))
             continue
